@@ -40,7 +40,7 @@ theorem decode_facts (A K : PE) (sw : List Nat) (hA : A.wf = true) (hK : uniqueI
   obtain ⟨ai, a, hlook, ha, hvo⟩ := validNodes_true K A m K.nodes hvn k hmem
   obtain ⟨a', ha', hid⟩ := lookup_some hlook
   rw [ha] at ha'; injection ha' with ha'; subst ha'
-  obtain ⟨hane, haok, hasw⟩ := wf_node hA ha
+  obtain ⟨hane, haok, hasw, hcf⟩ := wf_node hA ha
   obtain ⟨hlen, hops⟩ := validOperands_true K A m _ _ hvo
   refine ⟨ai, a, ha, hid, ?_, hlen, ?_⟩
   · intro op hop
@@ -70,8 +70,10 @@ theorem decode_facts (A K : PE) (sw : List Nat) (hA : A.wf = true) (hK : uniqueI
       next i hi =>
         injection hq1 with hq1; subst hq1
         simp only [preVal]
-        have := (idxOf_some op a.ops 0 i hi).2
-        simpa using this
+        obtain ⟨t', ht', hc⟩ := (idxOf_some op a.ops 0 i hi).2
+        have : t' = op := hcf t' op (List.mem_of_getElem? ht') hcova hc
+        subst this
+        simpa using ht'
       · simp at hq1
   · intro p h1 h2
     obtain ⟨l', hl1', hl2'⟩ := hops p h1 h2
